@@ -159,8 +159,8 @@ def run_case(case, ctx):
     s = rng.random() < 0.5
     nf = rng.choice([0, w // 2])
     lo, hi = R.code_range(s, w)
-    mode = ('expand', 'trunc', 'keep')[i % 3]
-    ov = ('saturate', 'wrap')[(i // 3) % 2]
+    mode = ('expand', 'trunc', 'keep')[(i // 3) % 3]       # (independent of the rank below, which is i % 3)
+    ov = ('saturate', 'wrap')[(i // 9) % 2]
 
     def code():
         c = rng.choice(['ext', 'odd', 'tz', 'rand', 'zero'])
@@ -178,7 +178,7 @@ def run_case(case, ctx):
     if rank and rng.random() < 0.3:
         v = np.array(v)
         v.flat[0] = 0
-    x = Fxp(v, s, w, nf, raw=True, shifting=mode, overflow=ov, rounding=G.ROUNDINGS[(i // 6) % 5])
+    x = Fxp(v, s, w, nf, raw=True, shifting=mode, overflow=ov, rounding=G.ROUNDINGS[(i // 18) % 5])
     if i % 4 == 2:
         x = G.historied(Fxp, x, rng)[0]
     for n in sorted(set([0, 1, rng.randint(0, w + 3), rng.randint(0, w + 3), w - 1, w, min(w + 3, 62 - w)])):
@@ -187,3 +187,20 @@ def run_case(case, ctx):
             nn = n if (i + n) % 3 else rng.choice([np.int64(n), np.int32(n), np.uint8(n), np.arange(n + 1)[n], np.array(n)])
             _try(lambda: x << nn)
             _try(lambda: x >> nn)
+    # an array that is shifted, has one element overwritten (indexed store), and is shifted again: the second shift must be sized from the
+    # new contents (lowest set bit / largest magnitude across the array)
+    if rank and (i // 27) % 2 == 0:
+        ya = Fxp(np.array(v).copy(), s, w, nf, raw=True, shifting=mode, overflow=ov)
+        n1 = rng.randint(1, max(1, min(w - 1, 62 - w)))
+        _try(lambda: ya >> n1)
+        _try(lambda: ya << n1)
+        idx = (0,) * np.ndim(ya.val)
+        new_code = rng.choice([1, hi, lo, hi - 1, (lo | 1) if lo else 1, rng.randint(lo, hi) | 1])
+        _try(lambda: ya.set_val(new_code, raw=True, index=idx))
+        _try(lambda: ya >> n1)
+        _try(lambda: ya << n1)
+        _try(lambda: ya.__setitem__(idx, float(F(rng.choice([1, 3, hi])) * R.lsb(nf))))
+        n2 = rng.randint(1, max(1, min(w + 3, 62 - w)))
+        if w + n2 <= 62:
+            _try(lambda: ya >> n2)
+            _try(lambda: ya << n2)
